@@ -1,5 +1,6 @@
 import KeepVerif.Proofs.C04Sqrt
 import KeepVerif.Proofs.C04Field
+import KeepVerif.Proofs.C04D2
 /-!
 # C04 — BN254 point encoding round-trips and decoding always terminates
 
@@ -12,14 +13,13 @@ Property theorems over `Model/C04.lean` (the functions the driver runs); constan
 * termination: the model functions are total; what is proved is that the bound of the fixed loop
   loses nothing (`sqrt_bound_complete`) and that the old loop diverged exactly where the fixed code
   returns the error (`sqrtGfP2_none_iff_old_diverges`, `decompressG2_diverges_witness`);
-* soundness of decoding for all inputs: `holdsD1_model` (G1). The G2 analogue (`holdsD2_model`) has a
-  proof script that elaborates, but its kernel check exceeds the memory limit under `lake build`
-  (not included; G2 decoding soundness is checked by monitor + correspondence on every run);
+* soundness of decoding for all inputs: `holdsD1_model` (G1), `holdsD2_model` (G2, in
+  `Proofs/C04D2.lean`, proved for an abstract square-root routine and instantiated);
 * round trip: `g1_roundtrip` (all finite points, `P` prime as hypothesis), `identity_roundtrip`;
-  G2 round trip for finite points is **not proved** (it needs F_p² to be a field and the
-  completeness of the 16-step search for squares; also no argument excludes a subgroup point with a
-  zero y-component, for which the negation `P − 0` would leave the field range) — it is checked by
-  the correspondence harness and the monitor on every run only;
+  `g2_roundtrip_partial`: G2 round trip under the hypothesis that the search returns one of the
+  two roots `±y` of `x³ + twistB` (true in a field once the 16-step search is complete for squares —
+  that algebraic fact about F_p² is the named gap; parity, negation, range and subgroup checks are
+  all proved);
 * hashing: `hash_on_curve`, `hashLoop_mono` (termination is fuel-relative).
 -/
 namespace KeepVerif.C04
@@ -232,5 +232,77 @@ theorem holdsRt1_model [hp : Fact (Nat.Prime P)] (x y : Nat)
   · rw [g1_roundtrip x y hx hy hc]
     simp [holdsRt1]
 
+
+
+/-! ## G2 round trip (partial) -/
+
+theorem g2FromInts_ok (x y : Fp2) (hx : Reduced x) (hy : Reduced y) (hin : inG2 x y = true) :
+    g2FromInts x y = .ok (x, y) := by
+  unfold g2FromInts
+  have hf : firstErr [x.y, x.x, y.y, y.x] = none := by
+    simp [firstErr, coordCheck, hx.1, hx.2, hy.1, hy.2]
+  rw [hf]
+  simp only
+  by_cases hz : (x.isZero && y.isZero) = true
+  · rw [if_pos hz]
+  · rw [if_neg hz, if_pos hin]
+
+/-- round trip for any square-root routine that returns one of `±y`. -/
+theorem g2_roundtrip_with (sqrt : Fp2 → Option Fp2) (x y r : Fp2) (hx : Reduced x) (hy : Reduced y)
+    (hin : inG2 x y = true) (hx0 : ¬ (x.x = 0 ∧ x.y = 0))
+    (hs : sqrt (Fp2.add (Fp2.pow x 3) twistB) = some r)
+    (hr : r = y ∨ r = ⟨P - y.x, P - y.y⟩) :
+    decompressG2With sqrt (compressG2 x y).1 (compressG2 x y).2 = .ok (x, y) := by
+  obtain ⟨hm1, hm2, hm3⟩ := orTop_split x.y (y.y % 2) (lt_trans hx.2 p_lt_two255)
+    (Nat.mod_lt _ (by omega))
+  have heta : (⟨x.x, x.y⟩ : Fp2) = x := by cases x; rfl
+  have hy' : (if y.y % 2 ≠ r.y % 2 then (⟨P - r.x, P - r.y⟩ : Fp2) else r) = y := by
+    have hp := p_odd
+    have h1 := hy.1
+    have h2 := hy.2
+    rcases hr with rfl | rfl
+    · simp
+    · have hpar : y.y % 2 ≠ (P - y.y) % 2 := by omega
+      simp only [hpar, ne_eq, not_false_eq_true, if_true]
+      cases y with
+      | mk yx yy =>
+        simp only [Fp2.mk.injEq]
+        simp only at h1 h2
+        constructor <;> omega
+  unfold decompressG2With compressG2 yParity
+  simp only
+  rw [if_neg (fun h => hx0 ⟨h.2, hm3 h.1⟩)]
+  rw [hm1, hm2, heta, hs]
+  simp only
+  rw [hy']
+  exact g2FromInts_ok x y hx hy hin
+
+/-- **G2 round trip (partial)**: for every point of G2 with reduced coordinates,
+    decompressing the compressed point gives back the point, *provided* the square-root search
+    on `x³ + twistB` returns `y` or `−y`.  Gap: that the search does so for every point (F_p² is a
+    field, so the roots are `±y`; the 16-step search is complete for squares) is not proved. -/
+theorem g2_roundtrip_partial (x y r : Fp2) (hx : Reduced x) (hy : Reduced y)
+    (hin : inG2 x y = true)
+    (hs : sqrtGfP2 (Fp2.add (Fp2.pow x 3) twistB) = some r)
+    (hr : r = y ∨ r = ⟨P - y.x, P - y.y⟩) :
+    decompressG2 (compressG2 x y).1 (compressG2 x y).2 = .ok (x, y) := by
+  have hx0 : ¬ (x.x = 0 ∧ x.y = 0) := by
+    rintro ⟨h1, h2⟩
+    have : x = ⟨0, 0⟩ := by cases x; simp only at h1 h2; subst h1; subst h2; rfl
+    rw [this, sqrt_twistB_none] at hs
+    cases hs
+  unfold decompressG2
+  exact g2_roundtrip_with sqrtGfP2 x y r hx hy hin hx0 hs hr
+
+/-- coordinates of the G2 generator (`twistGen`): x = g2x + g2xi·i, y = g2y + g2yi·i. -/
+def g2xi : Nat := 11559732032986387107991004021392285783925812861821192530917403151452391805634
+def g2x : Nat := 10857046999023057135944570762232829481370756359578518086990519993285655852781
+def g2yi : Nat := 4082367875863433681332203403145435568316851327593401208105741076214120093531
+def g2y : Nat := 8495653923123431417604973247489272438418190587263600148770280649306958101930
+
+/-- non-vacuity: the generator of G2 satisfies the hypotheses (its root is found by the search)
+    and round-trips. -/
+example : (match decompressG2 (compressG2 ⟨g2x, g2xi⟩ ⟨g2y, g2yi⟩).1 (compressG2 ⟨g2x, g2xi⟩ ⟨g2y, g2yi⟩).2 with
+    | .ok (a, b) => a == ⟨g2x, g2xi⟩ && b == ⟨g2y, g2yi⟩ | _ => false) = true := by decide +kernel
 
 end KeepVerif.C04
